@@ -970,9 +970,3 @@ func TestTrigPoisonFinalizeBlock(t *testing.T) {
 
 func cmtHeader(h int64) cmtproto.Header { return cmtproto.Header{ChainID: ChainID, Height: h} }
 
-func minInt(a, b int) int {
-	if a < b {
-		return a
-	}
-	return b
-}
